@@ -15,6 +15,11 @@ blocks; monitors:
 * census: every attribute of every class of ``_core`` / ``_graph_containers`` after every exit
   against before the matching enter; ``get_current_journal()``; journals that were left must
   not grow.
+* hooks: the journals are configured through their public hook API (``add_hook`` / ``clear_hooks``)
+  with hooks that observe, hooks that perform IR calls of their own on a private object, and hooks
+  that raise once from inside an IR operation; the caller handles that exception and repeats the
+  call (only calls whose repetition is invisible in the IR).  The entry monitors keep judging every
+  later completed call: a hook that raised must not change what the journal records afterwards.
 * liveness: after dropping the worlds and ``gc.collect()`` no IR object may survive because
   of the entries (decided causally: it dies once the entries are dropped too).
 """
@@ -34,7 +39,9 @@ ID = "C20"
 LEVEL = "exploration"
 RULE = ("a case is one generated edit history (15-80 calls; C01 alphabet with hostile argument classes + tensor, attribute, "
         "model, function construction, Graph.clone, keyword/generator call forms) with journal markers interleaved (depth 1-3, "
-        "re-entered Journal objects, exits: normal / harness exception / re-thrown IR exception, crossing up to 3 journals), "
+        "re-entered Journal objects, exits: normal / harness exception / re-thrown IR exception, crossing up to 3 journals; "
+        "6 of 7 cases also add hooks to the journals: observing, calling the IR themselves, or raising once from inside a "
+        "setter / resize / replace_all_uses_with call, which the caller handles and repeats), "
         "executed on a fresh world outside and on another inside journals; non-trivial = the journaled run left >= 1 journal "
         "in which >= 5 instrumented calls completed and compared >= 10 steps; distinct = hash of the marker structure and the "
         "multiset of call kinds. half of the cases construct nodes with Node(..., graph=g) (a constructor that hands the "
@@ -47,6 +54,11 @@ ASSUMPTIONS = [
     "entry clause as read in DESIGN.md: every completed call has exactly one entry of its kind on its object; entries of calls "
     "that raised are tolerated; order only between non-overlapping completed calls",
     "object ids / addresses inside messages and reprs are not state (normalised before comparing)",
+    "a hook that raises makes the IR operation being recorded raise; the entry recorded for that operation is tolerated like "
+    "the entry of any call that raised; hook faults are injected only at calls whose repetition does not change the IR "
+    "(setters, resize_inputs/outputs, replace_all_uses_with) and never while an original instrumented function is running",
+    "calls made by a hook lie inside the operation being recorded: each needs its entry, its position is not judged; whether "
+    "hooks are notified is not part of the statement (report_only_hook_*)",
     "re-entering one Journal object while it is active is not 'properly nested journals' (not exercised)",
     "snapshot covers every public data attribute of Value/Node/Graph/Function/Model (audited against dir() at start-up)",
 ]
@@ -103,15 +115,23 @@ def op_kind(op) -> str:
 
 
 def default_checkpoints(items) -> list[int]:
-    """The step before every marker, and the last step."""
+    """The step before every journal boundary, the step that follows a fault marker (executed with a
+    raising hook and repeated), and the last step."""
     out = []
     last = None
+    after_fault = False
     for i, it in enumerate(items):
-        if it[0] in MARKERS:
+        if it[0] in ("J_enter", "J_exit"):
             if last is not None:
                 out.append(last)
-        else:
+            after_fault = False
+        elif it[0] == "J_fault":
+            after_fault = True
+        elif it[0] not in MARKERS:
             last = i
+            if after_fault:
+                out.append(i)
+                after_fault = False
     if last is not None:
         out.append(last)
     return sorted(set(out))
@@ -361,7 +381,7 @@ def run_case(ctx, S, case):
         scratch.apply(op)
         ops.append(op)
     scratch = gen = None
-    items = insert_markers(rng, ops, mon.MAX_DEPTH)
+    items = insert_markers(rng, ops, mon.MAX_DEPTH, faultable=mon.FAULTABLE)
     viol, info = judge(S, items, gc_check=(case % GC_EVERY == 0))
     for k, v in info.items():
         if isinstance(v, int):
@@ -400,6 +420,11 @@ def plan(tier: str) -> dict:
         "del_io_inside_a_journal": 150,
         "del_io_outside_after_a_journal": 150,
         "client_calls_checked": 3000,
+        "hook_faults_injected": 300,
+        "journal_exits_after_hook_fault": 150,
+        "calls_completed_after_hook_fault": 3000,
+        "hook_touch_rounds": 1000,
+        "hook_notifications_checked": 10000,
     }
     for key in mon.TABLE:
         floors["calls:" + key] = 15
